@@ -143,7 +143,25 @@ def make_data(wrapped, extra=None):
     def legacy(x=1):
         return x * 3
 
-    d = {"gis": GetItemSeq([5, 0, 7]), "plaingen": plaingen, "legacy": legacy, "fls": [0.1] * 10, "flrecs": [{"v": 0.1}] * 10, "tup": (4, 5, 6), "pairs": [(1, "a"), (2, "b")], "dct": {"b": 2, "a": 1}, "mku": Markup("<b>m</b>"), "flt": 2.5, "tru": True,
+    def badlen(exc):
+        class BadLen:
+            def __iter__(self):
+                return iter([1, 2])
+
+            def __len__(self):
+                raise exc("len")
+        return BadLen()
+
+    class BadBool:
+        def __bool__(self):
+            raise ArithmeticError("bool")
+
+    class BadIter:
+        def __iter__(self):
+            raise LookupError("iter")
+
+    d = {"badlen_ni": badlen(NotImplementedError), "badlen_ov": badlen(OverflowError), "badlen_neg": badlen(ValueError),
+         "badbool": BadBool(), "baditer": BadIter(), "gis": GetItemSeq([5, 0, 7]), "plaingen": plaingen, "legacy": legacy, "fls": [0.1] * 10, "flrecs": [{"v": 0.1}] * 10, "tup": (4, 5, 6), "pairs": [(1, "a"), (2, "b")], "dct": {"b": 2, "a": 1}, "mku": Markup("<b>m</b>"), "flt": 2.5, "tru": True,
          "geni": geni, "stop": stop, "seq": [3, 1, 2, 3], "recs": [{"n": 1, "a": "x"}, {"n": 2, "a": "y"}, {"n": 1, "a": "z"}], "empty": [],
          "words": ["b", "a"], "fn": fn, "mk": mk, "n": 5, "s": "str",
          "recs2": [{"n": 1, "a": "x"}, {"a": "Y"}, {"n": 1}, {"a": "y", "n": 2}]}
@@ -228,7 +246,7 @@ SNIPS = [
     "{% for x in geni() %}{{ loop.last }}{{ x }}{{ loop.revindex0 }}{{ loop.length }}{% endfor %}",
     "{% for x in geni() %}{{ loop.length }}{{ loop.nextitem }}{{ x }}{% endfor %}",
     # len() of the loop object (recorded finding C09-F9), StopIteration out of a data callable (C09-F10)
-    "{% for x in seq %}{{ loop|length }}{% endfor %}", "{% for x in seq if x %}{{ loop|length }}{{ x }}{% endfor %}",
+    "{% for x in seq %}{{ loop|length }}{% endfor %}", "{% for x in seq recursive %}{{ loop|length }}{{ x }}{{ loop.length }}{% endfor %}", "{% for x in seq if x %}{{ loop|length }}{{ x }}{% endfor %}",
     "{% for x in mk() %}{{ loop|length }}{{ loop.length }}{% endfor %}", "[{{ stop() }}]{{ stop() is undefined }}",
     # a named lazy filter result consumed more than once (first must not finalise it)
     "{% set m = seq|map('string') %}{{ m|first }}{{ m|list }}", "{% set m = seq|select('odd') %}{{ m|first }}[{{ m|join(',') }}]{{ m|list }}",
@@ -238,6 +256,15 @@ SNIPS = [
     "{{ gis|map('string')|list }}{{ gis|select('odd')|list }}{% for x in gis if x %}{{ x }}{% endfor %}{{ gis|sort }}{{ gis|length }}",
     # callables returning a plain generator / a generator-based coroutine (types.coroutine)
     "{% for x in plaingen() %}{{ x }}{% endfor %}{{ legacy(3) }}{{ legacy(fn(1)) + 1 }}", "{{ legacy(1) }}{% for x in plaingen() %}{{ legacy(x) }}{% endfor %}",
+    # iterables whose __len__ raises something other than TypeError (a lazy result set, a huge range, a negative length),
+    # whose __bool__ raises, whose __iter__ raises - with loop.length / revindex / loop|length and plain iteration
+    "{% for x in badlen_ni %}{{ x }}{{ loop.length }}{% endfor %}", "{% for x in badlen_ov %}{{ loop.revindex }}{{ x }}{% endfor %}",
+    "{% for x in badlen_neg %}{{ loop|length }}{{ x }}{% endfor %}", "{% for x in badlen_ni %}{{ x }}{{ loop.index }}{{ loop.last }}{% endfor %}",
+    "{{ badlen_ov|length }}", "{% if badbool %}T{% endif %}", "{{ badbool|default('d', true) }}", "{% for x in baditer %}{{ x }}{% endfor %}", "{{ baditer|list }}{{ baditer|first }}",
+    "{% for x in range(10 ** 30) %}{{ loop.length if loop.first else '' }}{% if loop.index > 2 %}{% break %}{% endif %}{% endfor %}",
+    # a macro's value used inside an expression (native environments hand back Python values)
+    "{% macro pick(xs) %}{{ xs }}{% endmacro %}{{ pick([1, 2, 3])|length }}{{ pick(seq|list) }}{{ pick(n) + 1 if pick(n) is number else pick(n) ~ 'x' }}",
+    "{% macro two() %}{{ n }}{{ n }}{% endmacro %}{{ two()|int + 1 }}{{ two()|length }}{% call two() %}{% endcall %}",
     # float accumulation (the builtin sum compensates on 3.12: both modes must use it)
     "{{ fls|sum }}{{ fls|sum(start=1) }}{{ flrecs|sum(attribute='v') }}",
     # str start value of sum (recorded finding C09-F8)
@@ -257,6 +284,18 @@ PROBES = [
 
 # async-iterable DATA (not an engine generator) fed to consumers that have no async support: sync renders a value
 # from the list, async raises - one recorded finding per consumer; (template, signature)
+# oracle regression templates: every environment class x autoescape off / on
+ORACLE_FIXED = [
+    "{% macro pick(xs) %}{{ xs }}{% endmacro %}{{ pick([1, 2, 3])|length }}|{% macro num(x) %}{{ x }}{% endmacro %}{{ num(41) + 1 if num(41) is number else num(41) ~ 'x' }}"
+    "|{% if num(0) %}yes{% else %}no{% endif %}",
+    "{% macro mm(p) %}<{{ fn(p) }}>{% endmacro %}{{ mm(2) }}{% call mm(3) %}c{% endcall %}{{ mm(1)|length }}{{ [mm(1), '<']|join }}",
+    "{% for x in seq if x %}{{ loop.length }}{{ x }}{% if x == 2 %}{% break %}{% endif %}{% endfor %}|{{ seq|sort|first }}{{ seq|max }}{{ seq|batch(2)|list }}",
+]
+
+# plain data in both modes; (template, signature)
+PLAIN_PROBES = [
+    ("{{ badlen_ni|list }}", "raising __len__ consulted by list() in sync mode only"),
+]
 WRAPPED_PROBES = [
     ("{{ seq|last }}", "async iterable data fed to last"),
     ("{{ seq|length }}", "async iterable data fed to length"),
@@ -532,6 +571,16 @@ def oracle(ctx, jinja2, loop):
                        f"async mode differs: sync {s!r}, async {a!r}", sig)
         else:
             ctx.validated()
+    for (src, sig) in PLAIN_PROBES:
+        ts = {"main.html": src}
+        s_out = run_entry(make_env(jinja2, jinja2.Environment, ts, False), loop, "main.html", make_data(False), "render")
+        a_out = run_entry(make_env(jinja2, jinja2.Environment, ts, True), loop, "main.html", make_data(False), "render_async")
+        ctx.case(key=("plain-probe", src))
+        if s_out != a_out:
+            ctx.reject({"templates": ts, "env": "Environment", "entry": "render_async", "mode": "async", "wrapped": False, "expected": s_out, "got": a_out},
+                       f"async mode differs: sync {s_out!r}, async {a_out!r}", sig)
+        else:
+            ctx.validated()
     for (src, sig) in WRAPPED_PROBES:
         ts = {"main.html": src}
         s_out = run_entry(make_env(jinja2, jinja2.Environment, ts, False), loop, "main.html", make_data(False), "render")
@@ -542,9 +591,17 @@ def oracle(ctx, jinja2, loop):
                        f"async mode with async-iterable data differs: sync {s_out!r}, async {a_out!r}", sig)
         else:
             ctx.validated()
-    for i in range(n):
+    # regression templates first: each in every environment class, with autoescape off and on
+    fixed_jobs = [(src, ci, ae) for src in ORACLE_FIXED for ci in range(4) for ae in (False, True)]
+    for j in range(-len(fixed_jobs), n):
+        i = max(j, 0)
         extra = None
-        if i % 3 == 0:
+        if j < 0:
+            src, ci, ae = fixed_jobs[j + len(fixed_jobs)]
+            ts = dict(AUX)
+            ts["main.html"] = src
+            i = 1                               # (wrapped data runs too)
+        elif i % 3 == 0:
             g = TGen(ctx.rng, depth=3)
             ts, main = g.template_set()
             extra = g.data()
@@ -554,7 +611,12 @@ def oracle(ctx, jinja2, loop):
         cname, cls = classes[i % 4] if i % 5 else classes[0]
         uname = ["Undefined", "StrictUndefined", "ChainableUndefined", "DebugUndefined"][(i // 4) % 4] if i % 3 else "Undefined"
         UNDEFINED[0] = getattr(jinja2, uname)
-        AUTOESCAPE[0] = (i % 7 == 3) and cname != "NativeEnvironment"
+        AUTOESCAPE[0] = (i % 7 == 3) or (cname == "NativeEnvironment" and (i // 4) % 2 == 0)
+        if j < 0:
+            cname, cls = classes[ci]
+            uname = "Undefined"
+            UNDEFINED[0] = None
+            AUTOESCAPE[0] = ae
         ref = run_entry(make_env(jinja2, cls, ts, False), loop, "main.html", make_data(False, extra), "render")
         runs = [("sync", "generate", False)]
         runs += [("async", e, False) for e in ("render", "render_async", "generate", "generate_async")]
